@@ -49,7 +49,7 @@ CHECKS.update({
             '§0, §6 C01', PROG_NOTE),
     'C02': ("Lean theorems C02.* incl. build-level corollaries (build_mts_in_event_in_dispatcher: through dzn::shell once, observed with disp=1, reply after the dispatcher ran; build_mts_requires_out_queued: returns at once, closure owns copies, dispatcher runs it; build_sts_port_bypasses_dispatcher: no constructor assignment touches an STS port, the call runs the component's handler directly), dangling captures flagged, accessor types, partition; tie: routing table from the implementation text (by-value capture lists), compiled programs (dispatch flag, posted/shell counters, identity, static_assert of accessor types), text-level capture-list monitor on exotic extern types.",
             '§0, §6 C02', PROG_NOTE),
-    'C04': ("Lean theorems C04.*: the generated per-client wrappers EXECUTED over whole histories (history_refines: after any sequence of claims/releases by any number of registered clients the slots are unchanged, nothing is pending and the selector is the abstract machine's state; history_delivery: an out-event is observed by exactly the selected client or by nobody; history_holder: = the specification's holder when nobody releases a foreign claim), frame_invoke_drain (calls never rebind events), refinement/soundness of the abstract machine, names from configuration, cfg errors, worked shell (mc_wired, mc_example) + proved witness of finding D-9; tie: routing table incl. per-client wrappers from the implementation text, compiled multi-client programs on random claim/release/out histories.",
+    'C04': ("Lean theorems C04.*: the generated per-client wrappers EXECUTED over whole histories (history_refines: after any sequence of claims/releases by any number of registered clients the slots are unchanged, nothing is pending and the selector is the abstract machine's state; history_delivery: an out-event is observed by exactly the selected client or by nobody; history_holder: = the specification's holder when nobody releases a foreign claim; build_mc_wired / build_history_holder: the same for the shell Builder.build generates for every accepted model and configuration with any registered clients), frame_invoke_drain (calls never rebind events), refinement/soundness of the abstract machine, names from configuration, cfg errors, worked shell (mc_wired, mc_example) + proved witness of finding D-9; tie: routing table incl. per-client wrappers from the implementation text, compiled multi-client programs on random claim/release/out histories.",
             '§0, §6 C04', PROG_NOTE + ' Partial while D-9 is recorded.'),
     'C06': ('PARTIAL. Lean theorems C06.* on the generator model and the translated include tables (eight files, support file names, include closure of support headers and of the shell header, named scope for non-global encapsulees, proved witness of D-8); structural clauses (incl. every m_ member the source uses is declared, every declared function defined once with matching signature) evaluated in Lean on the real file sets; full-text correspondence with the model; compiler acceptance only sampled (g++: headers alone/twice, two prefixes, shell used from a second TU and linked, verbatim files).',
             '§0, §6 C06', 'Compiler acceptance is not provable in the model; seven recorded findings (known_findings.json).'),
